@@ -8,9 +8,9 @@ def dispatch (line : String) : String :=
   | none => "bad-request"
   | some r =>
     let h : Option String :=
-      if r.op.startsWith "c17." then Handlers.C17.handle r
+      if r.op.startsWith "c08." then Handlers.C08.handle r
+      else if r.op.startsWith "c17." then Handlers.C17.handle r
       else if r.op.startsWith "c18." then Handlers.C18.handle r
-      else if r.op.startsWith "c08." then Handlers.C08.handle r
       else none
     h.getD "bad-request"
 
